@@ -506,6 +506,14 @@ pub fn gen_load(prop: &'static str, rng: &mut Rng, _run: u64, _thorough: bool) -
             if kind == "misnamed" && !is_buffer {
                 continue;
             }
+            if name.ends_with(".icy") && rng.chance(2, 3) {
+                // damage behind the PNG / zlib / base64 framing, where the record parsers are
+                if let Some(ann) = crate::icyfault::inner_fault(rng, &mut bytes) {
+                    t.faults.push(ann);
+                    kinds.push("icy_inner");
+                    continue;
+                }
+            }
             let ann = disk_fault(rng, kind, &mut name, &mut bytes, &other);
             if !ann.ends_with("noop") {
                 t.faults.push(ann);
